@@ -4,6 +4,7 @@ mod clock;
 mod controller;
 mod corpus;
 mod edge;
+mod envseam;
 mod exec;
 mod gen;
 mod hashkeys;
@@ -109,6 +110,16 @@ fn main() {
         }
         "clocktest" => {
             println!("clock seam works: {}", clock::selftest());
+            // environment seam: inside a (pretend) call on a simulated thread the plan answers
+            clock::set_sim_thread(true);
+            envseam::set_plan(12345);
+            hook::begin_call(0);
+            let inside = std::env::var("SIM_ENVSEAM_PROBE_LC_ALL").ok();
+            hook::end_call();
+            envseam::set_plan(0);
+            clock::set_sim_thread(false);
+            let outside = std::env::var("SIM_ENVSEAM_PROBE_LC_ALL").ok();
+            println!("env seam: inside a call {:?}, outside {:?}, counts {:?}", inside, outside, envseam::take_counts());
         }
         "probe" => {
             let p = probe::send_sync_probe();
